@@ -57,14 +57,46 @@ fn sized(l: usize, avail: usize, to_file: bool) -> Option<String> {
     }
 }
 
+/// the disk refuses to take the body: the process runs under a file-size limit of 512 bytes (`ulimit -f 1`, SIGXFSZ
+/// ignored), so every write past that fails.  An upload must then be refused -- never accepted with a file that does not
+/// hold the bytes sent.  This function re-executes the binary under `sh` and relays the child's verdict.
+fn disk_full(kind: &str, l: usize) -> Option<String> {
+    let me = std::env::current_exe().unwrap();
+    let out = std::process::Command::new("sh").arg("-c").arg(format!("trap '' XFSZ; ulimit -f 1; exec '{}' fsize-child {kind} {l}", me.display())).output();
+    match out {
+        Err(e) => Some(format!("diskfull kind={kind} len={l} expected=child-runs actual={e}")),
+        Ok(o) => { let t = String::from_utf8_lossy(&o.stdout).to_string(); t.lines().find(|x| x.starts_with("CHILD ")).map(|x| x[6..].to_string()).filter(|x| x != "ok") }
+    }
+}
+fn disk_full_child(kind: &str, l: usize) {
+    let dir = std::env::temp_dir();
+    let src = data(l);
+    let desc = format!("diskfull kind={kind} len={l}");
+    // the limit must be in effect, else the scenario says nothing
+    let probe = dir.join(format!("verif-c09-probe-{}", std::process::id()));
+    let limited = std::fs::write(&probe, vec![0u8; 4096]).is_err();
+    let _ = std::fs::remove_file(&probe);
+    if !limited { println!("CHILD ok"); return; }
+    let rd = ScriptReader::new(vec![Step::Data(src.clone()), Step::Eof]);
+    let res = if kind == "sized" { block_on(read_http_body_to_file(rd, l as u64, &dir)) } else { block_on(read_http_unsized_body_to_file(rd, &dir, 1 << 30)) };
+    match res {
+        Ok(RequestBody::TempFile(tf, n)) => {
+            let on_disk = std::fs::read(tf.path()).unwrap_or_default();
+            if on_disk == src && n == l as u64 { println!("CHILD ok") } else { println!("CHILD {desc} expected=refused-or-intact actual=accepted(len={n},file_len={})", on_disk.len()) }
+        }
+        Ok(_) => println!("CHILD {desc} expected=refused-or-intact actual=other-variant"),
+        Err(_) => println!("CHILD ok"),
+    }
+}
 fn main() {
     std::panic::set_hook(Box::new(|_| {}));
     let args: Vec<String> = std::env::args().collect();
+    if args.len() >= 4 && args[1] == "fsize-child" { disk_full_child(&args[2], args[3].parse().unwrap()); return; }
     let nums = |w: &str| -> Vec<u64> { w.split(|c: char| !c.is_ascii_digit()).filter(|s| !s.is_empty()).filter_map(|s| s.parse().ok()).collect() };
     if args.len() >= 3 && args[1] == "replay" {
         let w = args[2..].join(" ");
         let n = nums(&w);
-        let r = if w.starts_with("unsized") { unsized_file(n[0] as usize, n[1]) } else { sized(n[0] as usize, n[1] as usize, w.contains("to_file=true")) };
+        let r = if w.starts_with("diskfull") { disk_full(if w.contains("kind=sized") { "sized" } else { "unsized" }, n[0] as usize) } else if w.starts_with("unsized") { unsized_file(n[0] as usize, n[1]) } else { sized(n[0] as usize, n[1] as usize, w.contains("to_file=true")) };
         match r {
             Some(m) => { println!("WITNESS {m}"); std::process::exit(1) }
             None => { println!("OK witness no longer fails"); std::process::exit(0) }
@@ -84,6 +116,10 @@ fn main() {
             }
         }
     }
+    for kind in ["sized", "unsized"] { for l in [513usize, 3000, 70000] {
+        n += 1;
+        if let Some(w) = disk_full(kind, l) { if found.len() < 5 { found.push(w) } }
+    }}
     println!("EVALUATED {n}");
     for f in &found { println!("WITNESS {f}"); }
     std::process::exit(if found.is_empty() { 0 } else { 1 });
